@@ -85,4 +85,23 @@ example : fromBytes .pe32 .file ⟨tinyPe 2 226, 0⟩ = .ok (tinyView 2 226) ∧
   unfold Loadable
   decide +kernel
 
+/-- **`hmapped` is necessary: stored-but-unmapped bytes are NOT "the same through both views".**
+The file `tinyPe 1 226` has a section with `SizeOfRawData = 2 > VirtualSize = 1`: the byte at rva 225 is
+stored (file offset 225, value `bb`) but not mapped.  The file view serves it (`slice` / `derva_copy` look
+at the raw data: `C04_slice_file_ok_iff` bounds the offset by `SizeOfRawData`), `to_view` copies only
+`min(VirtualSize, SizeOfRawData)` bytes, so the converted buffer holds 0 there (`C06_to_view_zero`): all
+other hypotheses of `C06_same_byte` hold and its conclusion fails.  The real code answers the same
+(`derva_copy f32 u8 225` = 187, after `img_to_view`: `derva_copy v32 u8 225` = 0). -/
+theorem C06_same_byte_unmapped_false :
+    fromBytes .pe32 .file ⟨tinyPe 1 226, 0⟩ = .ok (tinyView 1 226) ∧ Loadable (tinyView 1 226) ∧
+    (225 : Nat) < 4294967296 ∧ (tinyView 1 226).slice 225 1 1 = .ok ⟨225, 1, 1⟩ ∧
+    firstV (tinyView 1 226).secs 225 = some ⟨0, 0, 1, 224, 2, 224, 0⟩ ∧
+    ¬ (225 - (⟨0, 0, 1, 224, 2, 224, 0⟩ : Sec).va < (⟨0, 0, 1, 224, 2, 224, 0⟩ : Sec).vs) ∧
+    byteAt (tinyView 1 226).b 225 = 187 ∧ byteAt (tinyView 1 226).toView 225 = 0 := by
+  have h1 : fromBytes .pe32 .file ⟨tinyPe 1 226, 0⟩ = .ok (tinyView 1 226) := tinyView_ok _ _ (by decide +kernel)
+  have h2 : Loadable (tinyView 1 226) := by unfold Loadable; decide +kernel
+  refine ⟨h1, h2, by decide, by decide +kernel, by decide +kernel, by decide, by decide +kernel, ?_⟩
+  -- from the general theorem rather than by evaluation
+  exact C06_to_view_zero _ _ _ h1 h2 225 (by decide +kernel) (by decide +kernel) (by decide +kernel)
+
 end Pelite.Pe
